@@ -104,7 +104,7 @@ func isGhostBody(fn *ssa.Function) bool {
 
 func (e *Exec) callStatic(f *frame, in ssa.Instruction, fn *ssa.Function, args []Val, bindings []Val, rt types.Type, h *Heap, g string) (Val, *Heap, string) {
 	if e.isSpecFn(fn) && fn.Parent() == nil {
-		if isGhostBody(fn) {
+		if isGhostBody(fn) || e.isOpaque(fn) {
 			return e.ghostCall(f, in, fn, args, rt, h, g)
 		}
 		// pure spec function with a body: always inlined
@@ -115,6 +115,7 @@ func (e *Exec) callStatic(f *frame, in ssa.Instruction, fn *ssa.Function, args [
 		if sp.Trusted {
 			k1 = sp.Key
 		}
+		e.curCallee = fn
 		return e.contractCall(f, in, sp, k1, args, rt, h, g)
 	}
 	if e.canInline(fn) {
@@ -239,21 +240,42 @@ func (e *Exec) unknownCall(f *frame, in ssa.Instruction, key string, args []Val,
 		e.havocked["call:"+key]++
 	}
 	full := false
+	var cbs []*ssa.Function
 	for _, a := range args {
 		if a.Typ == nil {
 			continue
 		}
 		if _, ok := a.Typ.Underlying().(*types.Signature); ok {
-			full = true
+			// the callee may call the function it is given: its (inferred) effects happen
+			switch {
+			case a.Clo != nil:
+				cbs = append(cbs, a.Clo.fn)
+			case a.Fn != nil && len(a.Fn.Blocks) > 0:
+				cbs = append(cbs, a.Fn)
+			default:
+				full = true
+			}
 		}
 		e.escape(a)
 	}
+	pre := h
 	h = h.clone()
+	for _, cb := range cbs {
+		if ms := e.eng.modSetOf(cb); ms.all {
+			full = true
+		}
+	}
 	if full {
 		h = e.havocAll(h, "call with function argument: "+key)
 	} else {
+		for _, cb := range cbs {
+			e.applyModSet(e.eng.modSetOf(cb), h)
+		}
 		for _, a := range args {
 			e.havocPointee(h, a, 0)
+		}
+		if len(cbs) > 0 {
+			e.reassertPrivate(pre, h)
 		}
 	}
 	res := e.resultVal("r_"+shortName(key), rt)
@@ -590,10 +612,23 @@ func (e *Exec) ghostCall(f *frame, in ssa.Instruction, fn *ssa.Function, args []
 		return B("(bvult " + args[0].T + " " + args[1].T + ")")
 	case "ule":
 		return B("(bvule " + args[0].T + " " + args[1].T + ")")
+	case "bytesToStr":
+		a := args[0]
+		sl := a.Typ.Underlying().(*types.Slice)
+		comp := e.elemComp(sl.Elem())
+		e.s.declFun("bytes2str", []string{e.s.arrSort(e.s.sortOf(sl.Elem())), e.s.ixSort(), e.s.ixSort()}, e.s.strSort())
+		return B(fmt.Sprintf("(bytes2str %s (sl_off %s) (sl_len %s))", sel(e.hget(h, comp), "(sl_base "+a.T+")"), a.T, a.T))
 	case "timeNanos", "nanosTime":
 		return Val{T: args[0].T, Typ: rt}, h, g
 	case "nowNanos":
-		return Val{T: e.s.declConst("ghost_now", bvSort(64)), Typ: rt}, h, g
+		if !e.s.declared["ghost_now"] {
+			e.s.declConst("ghost_now", bvSort(64))
+			// the current time lies between 1970 and 2116 (same range as every time.Time, see time.spec);
+			// it is one instant per request: time does not advance while a handler runs
+			e.s.decl("(assert (and (bvsge ghost_now #x0000000000000000) (bvslt ghost_now #x4000000000000000)))")
+			e.eng.assumes["the clock reads one instant (between 1970 and 2116) for the whole request: time does not advance while a handler runs"] = true
+		}
+		return Val{T: "ghost_now", Typ: rt}, h, g
 	case "held":
 		return B(e.heldTerm(h, args[0]))
 	case "fresh":
@@ -793,7 +828,19 @@ func (e *Exec) contractCall(f *frame, in ssa.Instruction, sp *FuncSpec, key stri
 	}
 	pre := h
 	post := h.clone()
-	if sp.ModAll || (!sp.ModNone && !sp.Trusted && !hasModifies(sp)) {
+	callee := e.curCallee
+	e.curCallee = nil
+	inferred := false
+	if !sp.ModAll && !sp.ModNone && !sp.Trusted && !hasModifies(sp) && callee != nil && len(callee.Blocks) > 0 {
+		// no frame declared: use the inferred one (modset.go), a sound over-approximation of the body
+		if ms := e.eng.modSetOf(callee); !ms.all {
+			e.applyModSet(ms, post)
+			e.reassertPrivate(pre, post)
+			inferred = true
+		}
+	}
+	if inferred {
+	} else if sp.ModAll || (!sp.ModNone && !sp.Trusted && !hasModifies(sp)) {
 		post = e.havocAll(post, "contract call (modifies everything): "+key)
 	} else {
 		for _, cn := range sp.ModComps {
@@ -828,7 +875,7 @@ func (e *Exec) contractCall(f *frame, in ssa.Instruction, sp *FuncSpec, key stri
 		resList = []Val{res}
 	}
 	full := append(append([]Val{}, args...), resList...)
-	if !(sp.ModAll || (!sp.ModNone && !sp.Trusted && !hasModifies(sp))) {
+	if !inferred && !(sp.ModAll || (!sp.ModNone && !sp.Trusted && !hasModifies(sp))) {
 		for _, c := range sp.Clauses {
 			if c.Kind == KModifies {
 				for _, m := range e.evalModifies(e.eng.ld.specFunc(sp, c), full, pre) {
@@ -998,6 +1045,17 @@ func (e *Exec) summaryCall(f *frame, in ssa.Instruction, fn *ssa.Function, key s
 	if ms.all {
 		h = e.havocAll(h, "summary of "+key+" (unbounded effects)")
 	} else {
+		e.applyModSet(ms, h)
+		e.reassertPrivate(pre, h)
+	}
+	res := e.resultVal("r_"+shortName(key), rt)
+	e.logCall(key, res)
+	return res, h, g
+}
+
+// applyModSet forgets the components of an inferred frame.
+func (e *Exec) applyModSet(ms *modSet, h *Heap) {
+	{
 		var names []string
 		for _, d := range ms.descs {
 			switch d.kind {
@@ -1037,11 +1095,7 @@ func (e *Exec) summaryCall(f *frame, in ssa.Instruction, fn *ssa.Function, key s
 			}
 			h.m[c] = e.s.freshConst("sm", e.compSort[c])
 		}
-		e.reassertPrivate(pre, h)
 	}
-	res := e.resultVal("r_"+shortName(key), rt)
-	e.logCall(key, res)
-	return res, h, g
 }
 
 // evalSpecVal evaluates a value-returning spec function.
@@ -1078,4 +1132,20 @@ func (e *Exec) applyGhostSets(sp *FuncSpec, full []Val, post *Heap, g string) {
 		nv := e.named("gs", a.Typ, ite(cond, val.T, old))
 		e.storeAt(post, a, nv)
 	}
+}
+
+// isOpaque: an opaque pure function stays an uninterpreted symbol unless the contract under
+// verification reveals it.
+func (e *Exec) isOpaque(fn *ssa.Function) bool {
+	if !e.eng.opaque[fn.Name()] {
+		return false
+	}
+	if e.topSpec != nil {
+		for _, r := range e.topSpec.Reveal {
+			if r == fn.Name() {
+				return false
+			}
+		}
+	}
+	return true
 }
